@@ -406,8 +406,9 @@ namespace c13
     }
 
     vsched::set_deadlock_cb(deadlock_cb, nullptr);
-    for(int mode = 0; mode < 2; ++mode)
-    for(int op = 0; op < op_count; ++op)
+    bool stop_case = false;
+    for(int mode = 0; mode < 2 && !stop_case; ++mode)
+    for(int op = 0; op < op_count && !stop_case; ++op)
     {
       if(op == op_pcg && !bd.do_pcg) continue;
       if(op == op_to1 && !bd.do_to1) continue;
@@ -446,14 +447,15 @@ namespace c13
         if(failure.compare(0, 9, "MACHINERY") == 0) c.fail("machinery", failure, s);
         else if(V2.ok()) c.fail("machinery", "failing schedule did not reproduce: " + failure, s);
         else c.fail(std::string(op_name(op)) + " " + cls, failure + " [" + (mode ? "rendezvous" : "eager") + ", replay --extra " + s + "]", s);
-        break;   // one report per case
+        stop_case = true;   // one report per case
+        break;
       }
       const bool exact_op = (op == op_gate || op == op_sync0 || op == op_apply || op == op_diag || op == op_lump || op == op_to1) || (w.B.all_pow2 && op != op_pcg);
       if(exact_op && digests.size() != 1)
         c.fail(std::string("order dependence: ") + op_name(op) + " " + cls, "exact data, but " + std::to_string(digests.size()) + " distinct result digests over " + std::to_string(ex.stats.executions) + " arrival orders", pre);
       c.outcome(std::string(op_name(op)) + (exact_op ? " exact" : " rounded") + " digests=" + (digests.size() == 1 ? "1" : digests.size() <= 4 ? "2-4" : ">4"));
       c.maxi(std::string("distinct_digests ") + op_name(op), digests.size());
-      if(c.cut()) break;
+      if(c.cut()) stop_case = true;
     }
     int maxnb = 0, empties = 0; for(auto& R : w.ranks) { maxnb = std::max(maxnb, int(R->nb.size())); empties += R->empty_mirrors; }
     c.maxi("neighbours_per_rank", uint64_t(maxnb));
@@ -532,13 +534,13 @@ namespace c13
       "per operation every MPI_Waitany answer sequence (full product of the arrival orders of all ranks; <= D deviations for the PCG run) is executed and compared with a "
       "base-level oracle. Non-trivial = P >= 2 and at least one base dof shared between patches, hashed by the case description.";
 #if C13_FAMILY == 0
-    spec.bounds_quick = "quads 2x2: P<=3 all assignments + the 4-rank all-neighbours assignment; 3x2: P<=2 all, P=3 every 5th; 4x1: P<=4 all; 2x2 refined once: P=2 all, P=3 every 3rd, P=4; PCG deviations <= 2 (<= 1 with 3 neighbours)";
+    spec.bounds_quick = "quads 2x2: P<=3 all assignments + the 4-rank all-neighbours assignment; 3x2: P<=2 all, P=3 every 2nd; 4x1: P<=4 all; 2x2 refined once: P=2 all, P=3 every 3rd, P=4; PCG deviations <= 2 (<= 1 with 3 neighbours)";
     spec.bounds_thorough = "quads 2x2: P<=4 all assignments; 3x2: P<=3 all; 4x1: P<=4 all; 2x2 refined once: P<=4 all; PCG deviations <= 2";
 #elif C13_FAMILY == 1
     spec.bounds_quick = "triangle fans of 4 and 5 cells: P<=3 all assignments (5 cells P=3 every 3rd), 4 cells P=4; PCG deviations <= 2 (<= 1 with 3 neighbours)";
     spec.bounds_thorough = "triangle fans of 4 and 5 cells: P<=4 all assignments; fan of 4 refined once P<=3; PCG deviations <= 2";
 #else
-    spec.bounds_quick = "hexahedra 2x2x1: P<=2 all assignments, P=3 every 3rd, the 4-rank all-neighbours assignment; PCG deviations <= 1";
+    spec.bounds_quick = "hexahedra 2x2x1: P<=3 all assignments, the 4-rank all-neighbours assignment; PCG deviations <= 1";
     spec.bounds_thorough = "hexahedra 2x2x1: P<=4 all assignments; 2x1x1 refined once P=2; PCG deviations <= 2";
 #endif
     spec.assumptions = {
@@ -563,14 +565,14 @@ namespace c13
 #if C13_FAMILY == 0
       plans.push_back({vm::gen_block(2, 2, 2, 0), 0, 4, 1, T ? 1 : 0});
       plans.push_back({vm::gen_block(2, 4, 1, 0), 0, 4, 1, 1});
-      plans.push_back({vm::gen_block(2, 3, 2, 0), 0, 3, T ? 1 : 5, 0});
+      plans.push_back({vm::gen_block(2, 3, 2, 0), 0, 3, T ? 1 : 2, 0});
       plans.push_back({vm::gen_block(2, 2, 2, 0), 1, 4, T ? 1 : 3, T ? 1 : 0});
 #elif C13_FAMILY == 1
       plans.push_back({vm::gen_star(true, 2, 4), 0, 4, 1, T ? 1 : 0});
       plans.push_back({vm::gen_star(true, 2, 5), 0, T ? 4 : 3, T ? 1 : 3, T ? 7 : 0});
       if(T) plans.push_back({vm::gen_star(true, 2, 4), 1, 3, 1, 0});
 #else
-      plans.push_back({vm::gen_block(3, 2, 2, 1), 0, 4, T ? 1 : 3, T ? 1 : 0});
+      plans.push_back({vm::gen_block(3, 2, 2, 1), 0, 4, 1, T ? 1 : 0});
       if(T) plans.push_back({vm::gen_block(3, 2, 1, 1), 1, 2, 1, 0});
 #endif
       for(const Plan& pl : plans)
